@@ -180,43 +180,302 @@ theorem getSph_res (hw : P.WF) {s : MemoState FT ST} (hs : Inv P s) (k : SKey) (
         simp only
         cases (P.sphFrom (P.faceVal ⟨k.idx, k.reflected, true⟩) k).1 <;> rfl
 
-/-- How `get_spherical_triangle` changes the state: either not at all, or (in-range key, empty slot) it
-performs the nested face lookup, adds the CRS lookups, and stores the triangle iff the computation succeeded. -/
-theorem getSph_shape (hw : P.WF) {s : MemoState FT ST} (hs : Inv P s) (k : SKey) :
-    (getSphericalTriangle P s k).1 = s ∨
-    (k.idx ≤ FACE_TRIANGLE_MAX ∧ k.origin < P.numOrigins ∧ slotS k < MEMO_SPH_SLOTS ∧
-      s.sph.getD (slotS k) none = none ∧
-      ∃ s1, Inv P s1 ∧ s1.sph = s.sph ∧ s1.crsCalls = s.crsCalls ∧
-        ((∃ st, (sphVal P k).1 = .ok st ∧ (getSphericalTriangle P s k).1 =
-            ⟨s1.faces, s1.sph.set (slotS k) (some st), s1.crsCalls + (sphVal P k).2⟩) ∨
-         ((∀ st, (sphVal P k).1 ≠ .ok st) ∧ (getSphericalTriangle P s k).1 =
-            ⟨s1.faces, s1.sph, s1.crsCalls + (sphVal P k).2⟩))) := by
+/-- `get_spherical_triangle` on an in-range key whose slot is empty: nested face lookup, the CRS
+lookups are counted, and the triangle is stored iff the computation succeeded (a failure is NOT cached). -/
+theorem getSph_fill (hw : P.WF) {s : MemoState FT ST} (hs : Inv P s) (k : SKey)
+    (hk : k.idx ≤ FACE_TRIANGLE_MAX) (ho : k.origin < P.numOrigins) (hget : s.sph.getD (slotS k) none = none) :
+    ∃ s1, Inv P s1 ∧ s1.sph = s.sph ∧ s1.crsCalls = s.crsCalls ∧
+      ((∃ st, (sphVal P k).1 = .ok st ∧ (getSphericalTriangle P s k).1 =
+          ⟨s1.faces, s1.sph.set (slotS k) (some st), s1.crsCalls + (sphVal P k).2⟩) ∨
+       ((∀ st, (sphVal P k).1 ≠ .ok st) ∧ (getSphericalTriangle P s k).1 =
+          ⟨s1.faces, s1.sph, s1.crsCalls + (sphVal P k).2⟩)) := by
+  have hb : ¬ MEMO_SPH_SLOTS ≤ slotS k :=
+    Nat.not_le.mpr (slotS_lt k hk (by rw [← hw.numOrigins_eq]; exact ho))
   unfold getSphericalTriangle
-  rw [hs.lenS]
-  by_cases hb : MEMO_SPH_SLOTS ≤ slotS k
-  · left; rw [if_pos hb]
-  · rw [if_neg hb]
-    cases hget : s.sph.getD (slotS k) none with
-    | some v => left; rfl
+  rw [hs.lenS, if_neg hb, hget]
+  simp only
+  unfold computeSphericalTriangle
+  rw [if_neg (Nat.not_le.mpr ho)]
+  obtain ⟨s1, he, hi1, hsph, hcrs⟩ := getFace_spec hw hs ⟨k.idx, k.reflected, true⟩ hk
+  refine ⟨s1, hi1, hsph, hcrs, ?_⟩
+  rw [he]
+  simp only [sphVal]
+  cases hv : (P.sphFrom (P.faceVal ⟨k.idx, k.reflected, true⟩) k).1 with
+  | ok st => left; exact ⟨st, rfl, rfl⟩
+  | err e => right; exact ⟨fun st h => (nomatch h), rfl⟩
+  | panic p => right; exact ⟨fun st h => (nomatch h), rfl⟩
+
+/-- In every other situation (slot outside the table, hit, invalid origin, invalid index) the state is untouched. -/
+theorem getSph_same (P : Params FT ST Args Res) (s : MemoState FT ST) (k : SKey)
+    (h : ¬ (k.idx ≤ FACE_TRIANGLE_MAX ∧ k.origin < P.numOrigins ∧ s.sph.getD (slotS k) none = none)) :
+    (getSphericalTriangle P s k).1 = s := by
+  unfold getSphericalTriangle
+  split
+  · rfl
+  · cases hget : s.sph.getD (slotS k) none with
+    | some v => rfl
     | none =>
       simp only
       unfold computeSphericalTriangle
       by_cases ho : P.numOrigins ≤ k.origin
-      · left; rw [if_pos ho]
+      · rw [if_pos ho]
       · rw [if_neg ho]
-        by_cases hk : k.idx ≤ FACE_TRIANGLE_MAX
-        · right
-          refine ⟨hk, Nat.not_le.mp ho, Nat.not_le.mp hb, rfl, ?_⟩
-          obtain ⟨s1, he, hi1, hsph, hcrs⟩ := getFace_spec hw hs ⟨k.idx, k.reflected, true⟩ hk
-          refine ⟨s1, hi1, hsph, hcrs, ?_⟩
-          rw [he]
-          simp only [sphVal]
-          cases hv : (P.sphFrom (P.faceVal ⟨k.idx, k.reflected, true⟩) k).1 with
-          | ok st => left; exact ⟨st, rfl, rfl⟩
-          | err e => right; exact ⟨fun st h => by cases h, rfl⟩
-          | panic p => right; exact ⟨fun st h => by cases h, rfl⟩
-        · left
-          rw [getFace_err P s _ (Nat.not_le.mp hk)]
+        have hk : FACE_TRIANGLE_MAX < k.idx := by
+          apply Nat.lt_of_not_le
+          intro hk
+          exact h ⟨hk, Nat.not_le.mp ho, hget⟩
+        rw [getFace_err P s _ hk]
+
+theorem getSph_inv (hw : P.WF) {s : MemoState FT ST} (hs : Inv P s) (k : SKey) :
+    Inv P (getSphericalTriangle P s k).1 := by
+  by_cases h : k.idx ≤ FACE_TRIANGLE_MAX ∧ k.origin < P.numOrigins ∧ s.sph.getD (slotS k) none = none
+  · obtain ⟨hk, ho, hget⟩ := h
+    obtain ⟨s1, hi1, hsph, _, hcase⟩ := getSph_fill hw hs k hk ho hget
+    have hlt : slotS k < s1.sph.length := by
+      rw [hi1.lenS]; exact slotS_lt k hk (by rw [← hw.numOrigins_eq]; exact ho)
+    rcases hcase with ⟨st, hv, he⟩ | ⟨_, he⟩
+    · rw [he]
+      refine ⟨hi1.lenF, by simp [hi1.lenS], hi1.faceOk, ?_⟩
+      intro k' v hk' ho' h'
+      simp only at h'
+      by_cases hsl : slotS k = slotS k'
+      · have hkk : k = k' := slotS_inj k k' hk (by rw [← hw.numOrigins_eq]; exact ho) hk'
+          (by rw [← hw.numOrigins_eq]; exact ho') hsl
+        subst hkk
+        rw [getD_set_eq _ _ _ _ hlt] at h'
+        cases h'
+        exact hv
+      · rw [getD_set_ne _ _ _ _ _ hsl] at h'
+        exact hi1.sphOk k' v hk' ho' h'
+    · rw [he]
+      exact ⟨hi1.lenF, hi1.lenS, hi1.faceOk, hi1.sphOk⟩
+  · rw [getSph_same P s k h]; exact hs
+
+/-! ## the CRS counter -/
+
+/-- The counter is paid for by filled slots. -/
+def CrsInv (s : MemoState FT ST) : Prop := s.crsCalls ≤ CRS_LOOKUPS_PER_TRIANGLE * sphFilled s
+
+/-- Hypothesis of T4 (a finite fact about the float model, checked by evaluation): for each of the
+in-range keys the three CRS lookups succeed. -/
+structure SphTotal (P : Params FT ST Args Res) : Prop where
+  ok : ∀ k : SKey, k.idx ≤ FACE_TRIANGLE_MAX → k.origin < P.numOrigins → ∃ st, (sphVal P k).1 = .ok st
+  cnt : ∀ k : SKey, k.idx ≤ FACE_TRIANGLE_MAX → k.origin < P.numOrigins → (sphVal P k).2 ≤ CRS_LOOKUPS_PER_TRIANGLE
+
+theorem getSph_crs (hw : P.WF) (ht : SphTotal P) {s : MemoState FT ST} (hs : Inv P s) (hc : CrsInv s) (k : SKey) :
+    CrsInv (getSphericalTriangle P s k).1 := by
+  by_cases h : k.idx ≤ FACE_TRIANGLE_MAX ∧ k.origin < P.numOrigins ∧ s.sph.getD (slotS k) none = none
+  · obtain ⟨hk, ho, hget⟩ := h
+    obtain ⟨s1, hi1, hsph, hcrs, hcase⟩ := getSph_fill hw hs k hk ho hget
+    have hlt : slotS k < s1.sph.length := by
+      rw [hi1.lenS]; exact slotS_lt k hk (by rw [← hw.numOrigins_eq]; exact ho)
+    rcases hcase with ⟨st, hv, he⟩ | ⟨hno, _⟩
+    · rw [he]
+      unfold CrsInv sphFilled at hc ⊢
+      simp only
+      rw [countP_set_fill _ _ _ hlt (by rw [hsph]; exact hget), hsph, hcrs]
+      have := ht.cnt k hk ho
+      rw [Nat.mul_add]
+      omega
+    · obtain ⟨st, hv⟩ := ht.ok k hk ho
+      exact absurd hv (hno st)
+  · rw [getSph_same P s k h]; exact hc
+
+theorem sphFilled_le {s : MemoState FT ST} (hs : Inv P s) : sphFilled s ≤ MEMO_SPH_SLOTS := by
+  unfold sphFilled; rw [← hs.lenS]; exact List.countP_le_length
+
+/-! ## calls -/
+
+/-- State after the common tail of `forward`/`inverse` for a valid index: the state after
+`get_spherical_triangle` run from a state that differs from `s` by at most one face slot. -/
+theorem callCore_fill (hw : P.WF) {s : MemoState FT ST} (hs : Inv P s) (a : Args)
+    (hk : (P.classify a).idx ≤ FACE_TRIANGLE_MAX) :
+    ∃ s1, Inv P s1 ∧ s1.sph = s.sph ∧ s1.crsCalls = s.crsCalls ∧
+      (callCore P s a).1 = (getSphericalTriangle P s1 (P.classify a)).1 := by
+  obtain ⟨s1, he, hi1, hsph, hcrs⟩ := getFace_spec hw hs ⟨(P.classify a).idx, (P.classify a).reflected, false⟩ hk
+  refine ⟨s1, hi1, hsph, hcrs, ?_⟩
+  unfold callCore
+  rw [he]
+  simp only
+  cases getSphericalTriangle P s1 (P.classify a) with
+  | mk s2 r => cases r <;> rfl
+
+theorem callCore_state (hw : P.WF) {s : MemoState FT ST} (hs : Inv P s) (a : Args) :
+    (callCore P s a).1 = s ∨
+    ∃ s1, Inv P s1 ∧ s1.sph = s.sph ∧ s1.crsCalls = s.crsCalls ∧
+      (callCore P s a).1 = (getSphericalTriangle P s1 (P.classify a)).1 := by
+  by_cases hk : (P.classify a).idx ≤ FACE_TRIANGLE_MAX
+  · right; exact callCore_fill hw hs a hk
+  · left
+    unfold callCore
+    rw [getFace_err P s _ (Nat.not_le.mp hk)]
+
+theorem callCore_inv (hw : P.WF) {s : MemoState FT ST} (hs : Inv P s) (a : Args) : Inv P (callCore P s a).1 := by
+  rcases callCore_state hw hs a with h | ⟨s1, hi1, _, _, h⟩
+  · rw [h]; exact hs
+  · rw [h]; exact getSph_inv hw hi1 _
+
+theorem callCore_crs (hw : P.WF) (ht : SphTotal P) {s : MemoState FT ST} (hs : Inv P s) (hc : CrsInv s) (a : Args) :
+    CrsInv (callCore P s a).1 := by
+  rcases callCore_state hw hs a with h | ⟨s1, hi1, hsph, hcrs, h⟩
+  · rw [h]; exact hc
+  · rw [h]
+    refine getSph_crs hw ht hi1 ?_ _
+    unfold CrsInv sphFilled at hc ⊢
+    rw [hsph, hcrs]; exact hc
+
+/-- With a valid origin the common tail returns the stateless value. -/
+theorem callCore_res (hw : P.WF) {s : MemoState FT ST} (hs : Inv P s) (a : Args)
+    (ho : (P.classify a).origin < P.numOrigins) : (callCore P s a).2 = pureCall P a := by
+  unfold pureCall
+  rw [if_neg (Nat.not_le.mpr ho)]
+  by_cases hk : (P.classify a).idx ≤ FACE_TRIANGLE_MAX
+  · obtain ⟨s1, he, hi1, _, _⟩ := getFace_spec hw hs ⟨(P.classify a).idx, (P.classify a).reflected, false⟩ hk
+    have hres := getSph_res hw hi1 (P.classify a) hk (Or.inl ho)
+    unfold callCore
+    rw [he, pureFace_ok P _ hk, ← hres]
+    simp only
+    cases getSphericalTriangle P s1 (P.classify a) with
+    | mk s2 r => cases r <;> rfl
+  · unfold callCore
+    rw [getFace_err P s _ (Nat.not_le.mp hk), pureFace_err P _ (Nat.not_le.mp hk)]
+
+theorem call_inv (hw : P.WF) {s : MemoState FT ST} (hs : Inv P s) (a : Args) : Inv P (call P s a).1 := by
+  unfold call; split
+  · exact hs
+  · exact callCore_inv hw hs a
+
+theorem call_res (hw : P.WF) {s : MemoState FT ST} (hs : Inv P s) (a : Args) : (call P s a).2 = pureCall P a := by
+  unfold call
+  by_cases ho : P.numOrigins ≤ (P.classify a).origin
+  · rw [if_pos ho]; unfold pureCall; rw [if_pos ho]
+  · rw [if_neg ho]; exact callCore_res hw hs a (Nat.not_le.mp ho)
+
+theorem call_crs (hw : P.WF) (ht : SphTotal P) {s : MemoState FT ST} (hs : Inv P s) (hc : CrsInv s) (a : Args) :
+    CrsInv (call P s a).1 := by
+  unfold call; split
+  · exact hc
+  · exact callCore_crs hw ht hs hc a
+
+/-- Honest residue of T4: a *failing* spherical-triangle computation is not cached, so every repetition of
+the call pays its CRS lookups again (and returns the same error). -/
+theorem call_fail_grows (hw : P.WF) {s : MemoState FT ST} (hs : Inv P s) (a : Args)
+    (hk : (P.classify a).idx ≤ FACE_TRIANGLE_MAX) (ho : (P.classify a).origin < P.numOrigins)
+    (hf : ∀ st, (sphVal P (P.classify a)).1 ≠ .ok st) :
+    (call P s a).1.crsCalls = s.crsCalls + (sphVal P (P.classify a)).2 ∧ (call P s a).1.sph = s.sph := by
+  unfold call
+  rw [if_neg (Nat.not_le.mpr ho)]
+  obtain ⟨s1, hi1, hsph, hcrs, he⟩ := callCore_fill hw hs a hk
+  have hget : s1.sph.getD (slotS (P.classify a)) none = none := by
+    cases hg : s1.sph.getD (slotS (P.classify a)) none with
+    | none => rfl
+    | some v => exact absurd (hi1.sphOk _ v hk ho hg) (hf v)
+  obtain ⟨s2, _, hsph2, hcrs2, hcase⟩ := getSph_fill hw hi1 (P.classify a) hk ho hget
+  rcases hcase with ⟨st, hv, _⟩ | ⟨_, he2⟩
+  · exact absurd hv (hf st)
+  · rw [he, he2]
+    exact ⟨by simp only [hcrs2, hcrs], by simp only [hsph2, hsph]⟩
+
+theorem callV062_inv (hw : P.WF) (isInv : Args → Bool) {s : MemoState FT ST} (hs : Inv P s) (a : Args) :
+    Inv P (callV062 P isInv s a).1 := by
+  unfold callV062; split
+  · exact hs
+  · exact callCore_inv hw hs a
+
+theorem callV062_eq_call (isInv : Args → Bool) (s : MemoState FT ST) (a : Args)
+    (h : isInv a = false ∨ (P.classify a).origin < P.numOrigins) : callV062 P isInv s a = call P s a := by
+  unfold callV062 call
+  by_cases ho : P.numOrigins ≤ (P.classify a).origin
+  · have hi : isInv a = false := by
+      rcases h with h | h
+      · exact h
+      · exact absurd ho (Nat.not_le.mpr h)
+    simp [hi, ho]
+  · simp [ho]
+
+/-! ## histories and threads -/
+
+theorem run_inv (hw : P.WF) (h : List Args) : ∀ {s : MemoState FT ST}, Inv P s → Inv P (run P s h) := by
+  induction h with
+  | nil => intro s hs; exact hs
+  | cons a t ih => intro s hs; exact ih (call_inv hw hs a)
+
+theorem run_crs (hw : P.WF) (ht : SphTotal P) (h : List Args) :
+    ∀ {s : MemoState FT ST}, Inv P s → CrsInv s → CrsInv (run P s h) := by
+  induction h with
+  | nil => intro s _ hc; exact hc
+  | cons a t ih => intro s hs hc; exact ih (call_inv hw hs a) (call_crs hw ht hs hc a)
+
+theorem runResults_eq (hw : P.WF) (h : List Args) :
+    ∀ {s : MemoState FT ST}, Inv P s → runResults P s h = h.map (pureCall P) := by
+  induction h with
+  | nil => intro s _; rfl
+  | cons a t ih =>
+    intro s hs
+    simp only [runResults, List.map_cons, call_res hw hs a, ih (call_inv hw hs a)]
+
+theorem run_fail_grows (hw : P.WF) (a : Args)
+    (hk : (P.classify a).idx ≤ FACE_TRIANGLE_MAX) (ho : (P.classify a).origin < P.numOrigins)
+    (hf : ∀ st, (sphVal P (P.classify a)).1 ≠ .ok st) (m : Nat) :
+    ∀ {s : MemoState FT ST}, Inv P s →
+      (run P s (List.replicate m a)).crsCalls = s.crsCalls + m * (sphVal P (P.classify a)).2 := by
+  induction m with
+  | zero => intro s _; simp [run]
+  | succ m ih =>
+    intro s hs
+    simp only [List.replicate_succ, run]
+    rw [ih (call_inv hw hs a), (call_fail_grows hw hs a hk ho hf).1, Nat.succ_mul]
+    omega
+
+theorem run_append (s : MemoState FT ST) (h h' : List Args) : run P s (h ++ h') = run P (run P s h) h' := by
+  induction h generalizing s with
+  | nil => rfl
+  | cons a t ih => exact ih _
+
+theorem stepWorld_same (w : World FT ST) (t : ThreadId) (a : Args) :
+    (stepWorld P w t a).1 t = (call P (w t) a).1 := by
+  simp [stepWorld]
+
+theorem stepWorld_other (w : World FT ST) (t u : ThreadId) (a : Args) (h : u ≠ t) :
+    (stepWorld P w t a).1 u = w u := by
+  simp [stepWorld, h]
+
+theorem stepWorld_inv (hw : P.WF) {w : World FT ST} (hi : ∀ t, Inv P (w t)) (t : ThreadId) (a : Args) :
+    ∀ u, Inv P ((stepWorld P w t a).1 u) := by
+  intro u
+  by_cases h : u = t
+  · subst h; rw [stepWorld_same]; exact call_inv hw (hi u) a
+  · rw [stepWorld_other _ _ _ _ h]; exact hi u
+
+theorem runWorldResults_eq (hw : P.WF) (h : List (ThreadId × Args)) :
+    ∀ {w : World FT ST}, (∀ t, Inv P (w t)) → runWorldResults P w h = h.map (fun ta => pureCall P ta.2) := by
+  induction h with
+  | nil => intro w _; rfl
+  | cons x t ih =>
+    intro w hi
+    obtain ⟨u, a⟩ := x
+    simp only [runWorldResults, List.map_cons, ih (stepWorld_inv hw hi u a)]
+    congr 1
+    exact call_res hw (hi u) a
+
+/-- The component of thread `t` after an interleaving is the state thread `t` reaches by running its own
+subsequence alone: other threads' steps are invisible to it. -/
+theorem runWorld_proj (h : List (ThreadId × Args)) (t : ThreadId) :
+    ∀ (w : World FT ST), runWorld P w h t = run P (w t) ((h.filter (fun ta => ta.1 == t)).map (·.2)) := by
+  induction h with
+  | nil => intro w; rfl
+  | cons x r ih =>
+    intro w
+    obtain ⟨u, a⟩ := x
+    simp only [runWorld]
+    rw [ih]
+    by_cases hu : u = t
+    · subst hu
+      simp [stepWorld_same, run]
+    · have : (u == t) = false := by simpa using hu
+      simp only [List.filter_cons, this]
+      rw [stepWorld_other _ _ _ _ (fun e => hu e.symm)]
+      rfl
 
 end
 
